@@ -9,8 +9,14 @@
    Full statement:  C01_statement P := for every schedule without caller cancellation that ends the run with r, outcome_ok P false r.
    It is FALSE for some programs (known findings D9, D11, D12, D13, D17); proved here, kind E, for every program of the clean
    catalogue and EVERY schedule of unbounded length (certified exhaustive exploration); with caller cancellation allowed the
-   only additional outcome is CancelledError. The fragment theorem (all plain DAGs) is not proved: outside the catalogue the
-   property is decided on the implementation by the oracle against the extracted reference and by the correspondence check. *)
+   only additional outcome is CancelledError.
+   Kind F (below; Proofs/PlainValues.v, PlainOutcome.v): for ALL plain programs and ALL schedules (caller cancellation included)
+   a value returned by run is the result stored for the output node while manager.run was pending; every stored result is the value
+   the node's retry / default policy prescribes (the relation rr, whose closed form is C12's) for its body applied to the
+   keyword arguments computed from the final results of its declared inputs; hence two schedules return the same value and store
+   the same results. What kind F does NOT give: the identification of that prescribed value with Spec/Dataflow.eval_output (it
+   needs the builder's correctness, C15), and the error outcomes (C05). Outside plain programs and the catalogue the property is
+   decided on the implementation by the oracle against the extracted reference and by the correspondence check. *)
 From MLPE Require Import Engine.Run Spec.Dataflow Proofs.ExecLemmas Explore.StateEq Explore.Erase Explore.Explorer Explore.Safe
      Catalogue.Programs Catalogue.Certified Proofs.CertLemmas.
 
@@ -67,3 +73,36 @@ Example C01_premises_satisfiable :
   exists v, main_state (run_sched cat_rhombus [AQuiesce; AGate (GBody 0 0); AQuiesce; AGate (GBody 2 0); AGate (GBody 1 0); AQuiesce;
                                              AGate (GBody 3 0); AQuiesce]) = Some (TDone (SVal v)).
 Proof. split; [in_catalogue|]. eexists. vm_compute. reflexivity. Qed.
+
+
+(* ---- kind F: ALL plain programs, ALL schedules ---------------------------------------------------------------------------------- *)
+From MLPE Require Import Proofs.PlainWorld Proofs.PlainLive Proofs.PlainCore Proofs.PlainDeadlock Proofs.PlainArgs Proofs.PlainValues Proofs.PlainOutcome Proofs.Micro.
+
+Theorem C01_on_plain_programs_the_value_is_schedule_independent :
+  forall P, plain_prog P -> valid_orders P ->
+    forall st1 st2 v1 v2, reachable P st1 -> main_state st1 = Some (TDone (SVal v1)) ->
+                          reachable P st2 -> main_state st2 = Some (TDone (SVal v2)) -> v1 = v2.
+Proof. intros P HP (V1 & _ & V3 & _). exact (plain_returned_value_is_schedule_independent P HP V1 V3). Qed.
+Print Assumptions C01_on_plain_programs_the_value_is_schedule_independent.
+
+Theorem C01_on_plain_programs_the_value_is_the_prescribed_one :
+  forall P, plain_prog P -> valid_orders P ->
+    forall st v, reachable P st -> main_state st = Some (TDone (SVal v)) ->
+      exists st0 c0, creach P st0 c0 /\ pending st0 /\ okv P st0 (b_output (build (p_decls P) (p_inp P) (p_out P))) v /\
+                     forall p, In p (preds (b_graph (build (p_decls P) (p_inp P) (p_out P))) (b_output (build (p_decls P) (p_inp P) (p_out P)))) ->
+                               exists_result p (st_store st0) = true.
+Proof. intros P HP (V1 & _ & V3 & _). exact (plain_returned_value_is_prescribed P HP V1). Qed.
+Print Assumptions C01_on_plain_programs_the_value_is_the_prescribed_one.
+
+Theorem C01_on_plain_programs_stored_results_are_schedule_independent :
+  forall P, plain_prog P -> valid_orders P ->
+    forall st1 st2, reachable P st1 -> pending st1 -> reachable P st2 -> pending st2 ->
+      forall m, exists_result m (st_store st1) = true -> exists_result m (st_store st2) = true ->
+                get_result m true (st_store st1) = get_result m true (st_store st2).
+Proof. intros P HP (V1 & _ & V3 & _). exact (plain_results_are_schedule_independent P HP V1 V3). Qed.
+Print Assumptions C01_on_plain_programs_stored_results_are_schedule_independent.
+
+(* a run of the rhombus that ends with a value (so the theorems are not vacuous), under the first-gate-first schedule *)
+Example C01_plain_not_vacuous :
+  match main_state (auto_run cat_rhombus 40 init_state) with Some (TDone (SVal _)) => True | _ => False end.
+Proof. vm_compute. exact I. Qed.
